@@ -6,6 +6,7 @@ import Driver.Sizing
 import Driver.Descr
 import Driver.TmgrSched
 import Driver.RM
+import Driver.Sched
 open Lean
 
 /-- line protocol: one JSON op per input line, one canonical JSON answer per line -/
@@ -27,5 +28,6 @@ def main (args : List String) : IO UInt32 := do
   | ["descr"] => loop stdin Driver.Descr.handle; return 0
   | ["tmgrsched"] => loop stdin Driver.TmgrSched.handle; return 0
   | ["rm"] => loop stdin Driver.RM.handle; return 0
+  | ["sched"] => loop stdin Driver.Sched.handle; return 0
   | ["cause"] => loop stdin Driver.AgentCause.handle; return 0
   | _ => IO.eprintln "usage: rpmodel <suite>"; return 2
